@@ -41,6 +41,14 @@ class _Return(Exception):
     pass
 
 
+class Raised(Exception):
+    """fork mode: the interpreted code executed a `raise` on this path."""
+    def __init__(self, lineno, exc=None):
+        Exception.__init__(self, "raise at line %s: %r" % (lineno, exc))
+        self.lineno = lineno
+        self.exc = exc
+
+
 def is_sym(v):
     return isinstance(v, z3.ExprRef)
 
@@ -137,6 +145,7 @@ class Engine(object):
         self._src_cache = {}
         self.functions_read = set()
         self.unknown = False
+        self.native_types = ()        # instances whose methods run natively even on symbolic arguments
         self.cut = None               # optional cut-point callback (engine, frame, loop stmt, iteration, guard)
 
     # ---- solver helpers -------------------------------------------------
@@ -390,10 +399,17 @@ class Engine(object):
 
     # ---- arithmetic -------------------------------------------------------
     def binop(self, op, l, r):
-        if not is_sym(l) and not is_sym(r):
+        if not is_sym(l) and not is_sym(r) and not (isinstance(l, (tuple, list)) and any_sym(l)) \
+                and not (isinstance(r, (tuple, list)) and any_sym(r)):
             return _PYOPS[type(op)](l, r)
         if isinstance(l, (tuple, list)) or isinstance(r, (tuple, list)):
             if isinstance(op, ast.Add):
+                if isinstance(l, str) or isinstance(r, str):
+                    raise Unsupported("bytes + str (TypeError on Python 3)")
+                if isinstance(l, bytes):
+                    l = type(r)(l)
+                if isinstance(r, bytes):
+                    r = type(l)(r)
                 return l + r
             raise Unsupported("sequence op")
         a, b = self.to_term(l), self.to_term(r)
@@ -508,15 +524,34 @@ class Engine(object):
                 raise Unsupported("solver returned unknown while forking")
             if can_t and can_f:
                 take = True
-                self._trail.append([True, True])
+                self._trail.append([True, True, None])
             elif can_t or can_f:
                 take = can_t
-                self._trail.append([take, False])
+                self._trail.append([take, False, None])
             else:
                 raise Unsupported("infeasible path reached")
         self._pos += 1
         self.assume(cond if take else z3.Not(cond))
         return take
+
+    def concretize(self, term):
+        """fork mode: case-split a term over its feasible values (one value per path)."""
+        while True:
+            if self._pos < len(self._trail):
+                take, _, val = self._trail[self._pos]
+            else:
+                if self.check() != z3.sat:
+                    raise Unsupported("infeasible path reached (concretize)")
+                v = self.last_model.eval(term, model_completion=True)
+                val = v.as_signed_long() if z3.is_bv_value(v) else v.as_long()
+                take = True
+                other = self.check(term != val) == z3.sat
+                self._trail.append([True, other, val])
+            self._pos += 1
+            if take:
+                self.assume(term == val)
+                return val
+            self.assume(term != val)
 
     def paths(self, fn, args, pre=(), max_paths=100000):
         """fork mode driver: yields (path_condition_list, result) for every feasible path."""
@@ -530,7 +565,10 @@ class Engine(object):
                 self.assume(p)
             self._pos = 0
             try:
-                res = self.call(fn, list(args), {})
+                try:
+                    res = self.call(fn, list(args), {})
+                except Raised as rz:
+                    res = rz
                 yield list(self.pc), res
             finally:
                 self.solver.pop()
@@ -542,7 +580,7 @@ class Engine(object):
                 self._trail.pop()
             if not self._trail:
                 return
-            self._trail[-1] = [not self._trail[-1][0], False]
+            self._trail[-1] = [not self._trail[-1][0], False, self._trail[-1][2]]
 
     # ---- calling ------------------------------------------------------------
     def get_ast(self, fn):
@@ -569,9 +607,17 @@ class Engine(object):
             return self.stubs[fn](self, *args, **kwargs)
         if isinstance(fn, Closure):
             return self.run_function(fn.node, fn.glob, args, kwargs, closure_env=fn.env, defaults=fn.defaults)
-        handler = _BUILTINS.get(fn)
+        try:
+            handler = _BUILTINS.get(fn)
+        except TypeError:
+            handler = None
         if handler is not None:
             return handler(self, *args, **kwargs)
+        if isinstance(fn, types.MethodType):
+            if isinstance(fn.__self__, self.native_types):
+                return fn(*args, **kwargs)
+            if isinstance(fn.__func__, types.FunctionType):
+                return self.call(fn.__func__, [fn.__self__] + list(args), kwargs)
         if isinstance(fn, types.FunctionType) and (self.inline is None or self.inline(fn)):
             try:
                 node = self.get_ast(fn)
@@ -676,6 +722,11 @@ class Engine(object):
                     obj[i] = self.ite(self.to_term(idx) == i, val, obj[i])
             else:
                 obj[idx] = val
+        elif isinstance(target, ast.Attribute):
+            obj = self.eval(target.value, fr)
+            if not act.is_true or is_sym(obj):
+                raise Unsupported("attribute store under a symbolic guard")
+            setattr(obj, target.attr, val)
         else:
             raise Unsupported("assignment target %s" % type(target).__name__)
 
@@ -736,9 +787,39 @@ class Engine(object):
         elif t is ast.FunctionDef:
             fr.env[st.name] = Closure(st, fr.env, fr.glob, self._defaults(st.args, fr))
         elif t is ast.Raise:
-            # raising is an outcome the caller must exclude: record as obligation
+            if self.mode == "fork" and act.is_true:
+                exc = None
+                try:
+                    exc = self.eval(st.exc, fr) if st.exc is not None else None
+                except Exception:  # noqa
+                    pass
+                raise Raised(st.lineno, exc)
+            # merge mode: raising is an outcome the caller must exclude: record as obligation
             self.oblige("raise@%d" % st.lineno, True)
             fr.returned = self.g_or(fr.returned, act)
+        elif t is ast.Try:
+            if not act.is_true:
+                raise Unsupported("try under a symbolic guard")
+            try:
+                try:
+                    self.block(st.body, fr, act)
+                except (Unsupported, Raised):
+                    raise
+                except Exception as ex:  # noqa  (exception raised by natively executed code)
+                    for hd in st.handlers:
+                        et = self.eval(hd.type, fr) if hd.type is not None else Exception
+                        if isinstance(ex, et):
+                            if hd.name:
+                                fr.env[hd.name] = ex
+                            self.block(hd.body, fr, act)
+                            break
+                    else:
+                        raise
+                else:
+                    self.block(st.orelse, fr, act)
+            finally:
+                if st.finalbody:
+                    self.block(st.finalbody, fr, act)
         else:
             raise Unsupported("statement %s" % t.__name__)
 
@@ -978,6 +1059,9 @@ class Engine(object):
             return obj[idx]
         n = len(obj)
         i = self.to_term(idx)
+        if self.mode == "fork":
+            k = self.concretize(i)
+            return obj[k]
         self.oblige("index-range", z3.Or(i < -n, i >= n))
         res = obj[n - 1]
         for k in range(n - 2, -1, -1):
